@@ -30,3 +30,5 @@ def run(ctx, rep):
     more4.rule_int_work_fill(mod, rep)
     from ..rules import more5
     more5.rule_align_dir(mod, rep)
+    from ..rules import state
+    state.rule_state(mod, rep)          # memory-mode switch: SetupSpace stores the mode it is given (a stale USER mode places "malloc" factors in an earlier caller's buffer)
